@@ -350,7 +350,7 @@ def analyse(ctx, replace=None, only=None):
                 "run-all is (also) called before the pass's cancellation records are processed: a task cancelled while pending, whose time has come, is run instead of cancelled")
     # ------------------------------------------------------------------ DRAIN
     drain(R, d, fns, after_calls=chain[2][1], before_calls=chain[5][1])
-    batch_lists(R, fns["s_thread_fn"])
+    batch_lists(R, fns["s_thread_fn"], helpers)
 
     # ------------------------------------------------------------------ CANCEL-NODE
     c = fns["aws_thread_scheduler_cancel_task"]
@@ -518,7 +518,8 @@ def drain(R, d, fns, after_calls, before_calls):
                 "items popped while draining flow into a task-consuming call", "items popped while draining are dropped")
 
 
-def batch_lists(R, f):
+def batch_lists(R, f, helpers=None):
+    helpers = helpers or {}
     """local batch lists in the thread loop are not re-initialised or dropped while they may hold items"""
 
     def qk(n):
@@ -557,7 +558,7 @@ def batch_lists(R, f):
         lst = RU.strip_addr(f, RU.arg(f, p.node, 0))
         ids = {p.node["id"]}
         tainted, et = RU.derives(f, lambda n: n.get("id") in ids and n["k"] in ("call", "ref"))
-        uses = [e for e in RU.reach_from(f, p) if e.kind == "call" and e.node.get("callee") in (CONSUME_TASK | {"aws_task_scheduler_cancel_task"}) and any(et(a) for a in e.node["a"])]
+        uses = [e for e in RU.reach_from(f, p) if e.kind == "call" and e.node.get("callee") in (CONSUME_TASK | {"aws_task_scheduler_cancel_task"} | set(helpers)) and any(et(a) for a in e.node["a"])]
         R.check(bool(uses), "DRAIN", "s_thread_fn:popped-from-%s-consumed" % (lst or {}).get("n"), where(f, p), "popped item is handed to the inner scheduler",
                 "item popped from %s is not handed to the inner scheduler" % (lst or {}).get("n"))
 
